@@ -45,6 +45,11 @@ class Bool:
 
 
 @dataclass(frozen=True)
+class Str:
+    value: str
+
+
+@dataclass(frozen=True)
 class Tup:
     elts: tuple
 
@@ -84,7 +89,7 @@ def join_elem(vals, where: str = "") -> object:
             v = join_elem(v.elts, where)
         if isinstance(v, Err):
             return v
-        if isinstance(v, (Bool, Obj)) or v == N or v is None:
+        if isinstance(v, (Bool, Obj, Str)) or v == N or v is None:
             continue
         if v == TOP:
             out = TOP if not isinstance(out, Err) else out
@@ -108,8 +113,8 @@ def join_merge(a, b) -> object:
         return b
     if isinstance(a, Tup) and isinstance(b, Tup) and len(a.elts) == len(b.elts):
         return Tup(tuple(join_merge(x, y) for x, y in zip(a.elts, b.elts)))
-    if isinstance(a, Bool) or isinstance(b, Bool):
-        return N if (isinstance(a, Bool) and isinstance(b, Bool)) else TOP
+    if isinstance(a, (Bool, Str)) or isinstance(b, (Bool, Str)):
+        return N if (isinstance(a, (Bool, Str)) and isinstance(b, (Bool, Str))) else TOP
     return TOP
 
 
@@ -166,7 +171,11 @@ class Interp:
     def run(self, f: FuncInfo, env: dict, self_flags: Optional[dict[str, bool]] = None, use_contract_for_self=False):
         """Evaluate f's body.  env: name -> value for parameters (and dotted `self.x` names).
         Returns (list of (return node, value), final env)."""
-        fr = _Frame(self, f, dict(env), dict(self_flags or {}), 0)
+        env = dict(env)
+        for p, d in f.defaults().items():
+            if p not in env and isinstance(d, ast.Constant) and isinstance(d.value, bool):
+                env[p] = Bool(d.value)
+        fr = _Frame(self, f, env, dict(self_flags or {}), 0)
         fr.exec_body(f.body)
         return fr.returns, fr.env
 
@@ -406,11 +415,22 @@ class _Frame:
             if any(v is True for v in vals):
                 return True
             return False if all(v is False for v in vals) else None
+        if isinstance(e, ast.Compare) and len(e.ops) == 1 and isinstance(e.ops[0], (ast.Eq, ast.NotEq)):
+            sa, sb = self._str_of(e.left), self._str_of(e.comparators[0])
+            if sa is not None and sb is not None:
+                return (sa == sb) if isinstance(e.ops[0], ast.Eq) else (sa != sb)
         if isinstance(e, ast.Compare) and len(e.ops) == 1 and isinstance(e.ops[0], (ast.Is, ast.IsNot, ast.Eq, ast.NotEq)):
             a, b = self.ev_bool(e.left), self.ev_bool(e.comparators[0])
             if a is not None and b is not None:
                 same = a == b
                 return same if isinstance(e.ops[0], (ast.Is, ast.Eq)) else not same
+        return None
+
+    def _str_of(self, e: ast.expr) -> Optional[str]:
+        if isinstance(e, ast.Constant) and isinstance(e.value, str):
+            return e.value
+        if isinstance(e, ast.Name) and isinstance(self.env.get(e.id), Str):
+            return self.env[e.id].value
         return None
 
     # -------------------------------------------------------------------------------------------- expressions
@@ -426,7 +446,9 @@ class _Frame:
         if e is None:
             return N
         if isinstance(e, ast.Constant):
-            return Bool(e.value) if isinstance(e.value, bool) else N
+            if isinstance(e.value, bool):
+                return Bool(e.value)
+            return Str(e.value) if isinstance(e.value, str) else N
         if isinstance(e, ast.Name):
             return self.env.get(e.id, N)
         if isinstance(e, ast.Attribute):
@@ -458,7 +480,7 @@ class _Frame:
                 if isinstance(k, int) and -len(base.elts) <= k < len(base.elts):
                     return base.elts[k]
                 return _element(base)
-            if isinstance(base, Bool):
+            if isinstance(base, (Bool, Str)):
                 return N
             return join_elem([base, self.index_layout(e.slice)], self.where(e))
         if isinstance(e, (ast.Tuple, ast.List)):
@@ -551,6 +573,19 @@ class _Frame:
         name = last_attr(call)
         full = dotted(call.func) or ""
         w = self.where(call)
+        if name in ("map_blocks", "map_overlap") and call.args and last_attr(call.args[0]) in (
+                FORWARD_FFT | INVERSE_FFT | {"fft_crop", "fftshift", "ifftshift"}):
+            # blockwise application of a primitive == the primitive applied to the array
+            fn = call.args[0]
+            if isinstance(call.func, ast.Attribute) and (dotted(call.func.value) or "") not in ("da", "dask.array"):
+                arr_args = [call.func.value] + list(call.args[1:])
+            else:
+                arr_args = list(call.args[1:])
+            drop = ("chunks", "dtype", "meta", "drop_axis", "new_axis", "depth", "boundary", "name", "token")
+            direct = ast.Call(func=fn, args=arr_args, keywords=[k for k in call.keywords if k.arg not in drop])
+            ast.copy_location(direct, call)
+            ast.fix_missing_locations(direct)
+            return self.ev_call(direct)
         argv = [self.ev(a.value if isinstance(a, ast.Starred) else a) for a in call.args]
         kwv = {k.arg: self.ev(k.value) for k in call.keywords if k.arg}
         # ---- transitions
@@ -709,7 +744,7 @@ def _element(v):
         for x in v.elts[1:]:
             r = join_merge(r, x)
         return _element(r) if isinstance(r, Tup) else r
-    if isinstance(v, (Bool, Obj)):
+    if isinstance(v, (Bool, Obj, Str)):
         return N
     return v
 
@@ -748,6 +783,7 @@ class Spec:
     expect_store: Optional[tuple[str, Callable[[dict], object]]] = None  # (dict key, valuation -> layout)
     batched: Optional[bool] = None  # True: shifts must name the two pattern axes; False: all axes; None: not checked
     label: str = ""
+    strings: dict = field(default_factory=dict)  # string parameter -> list of values to enumerate
 
 
 def valuations(flags: list[str]):
@@ -764,21 +800,30 @@ def check_spec(ctx, rule: str, it: Interp, spec: Spec) -> None:
     shift/crop site inside the function."""
     f = spec.func
     site_results: dict[int, list] = {}
-    for val in valuations(spec.flags):
+    string_names = sorted(spec.strings)
+    combos = [(val, dict(zip(string_names, sv))) for val in valuations(spec.flags)
+              for sv in itertools.product(*[spec.strings[n] for n in string_names])]
+    for val, svals in combos:
         it.events.clear()
         env = spec.inputs(val)
         self_flags = {k: v for k, v in val.items() if k.startswith("self.")}
         for k, v in val.items():
             if not k.startswith("self.") and k in f.params:
                 env[k] = Bool(v)
+        for k, v in svals.items():
+            env[k] = Str(v)
         returns, final_env = it.run(f, env, self_flags)
-        tag = fmt_val(val)
+        tag = fmt_val({**val, **svals})
         construct = f"{f.qualname}[{tag}]"
         events_here = [e for e in it.events if e.func == f.qualname]
         for e in events_here:
             if e.op in ("fftshift", "ifftshift", "fft_crop", "ifft"):
                 site_results.setdefault(id(e.node), []).append((e, val))
         problems: list[tuple[str, str]] = []
+        if not returns and _always_raises(f, it, env, self_flags):
+            ctx.ok(rule, construct, f.where, f"{spec.label or f.short} under {tag}: the call is rejected (raises) — "
+                                             "this layout is not accepted")
+            continue
         if spec.expect is not None:
             want = spec.expect(val)
             if not returns:
@@ -787,7 +832,7 @@ def check_spec(ctx, rule: str, it: Interp, spec: Spec) -> None:
                 for x in flatten(v):
                     if isinstance(x, Err):
                         problems.append((x.kind, f"{x.msg} (at {x.where})"))
-                    elif x in (TOP, N) or isinstance(x, Bool):
+                    elif x in (TOP, N) or isinstance(x, (Bool, Str)):
                         raise AnalysisError(f"{f.qualname}: cannot establish the layout of the value returned at line "
                                             f"{getattr(node, 'lineno', '?')} under {tag} (got {x})")
                     elif x != want:
@@ -854,6 +899,13 @@ def check_spec(ctx, rule: str, it: Interp, spec: Spec) -> None:
                   f"{e0.op} over axes {axes if axes is not None else 'all'}",
                   f"{e0.op} runs over axes {axes if axes is not None else 'all'}; required: {want}",
                   key_detail="axes")
+
+
+def _always_raises(f: FuncInfo, it: Interp, env: dict, self_flags: dict) -> bool:
+    """No return is reachable under this valuation and the body ends in a raise."""
+    fr = _Frame(it, f, dict(env), dict(self_flags), 0)
+    left = fr.exec_body(f.body)
+    return left and not fr.returns
 
 
 def check_fft_crop_convention(ctx, rule: str, repo: Repo) -> None:
